@@ -26,6 +26,11 @@ typedef bool boolean;
 #define A4 18
 #define A5 19
 #define F(s) (s)
+// live heap blocks of the sketch (array new / delete, as the list helpers use them): reported as H:<live> at every pass
+namespace fwsim { inline long &live_blocks() { static long n = 0; return n; } }
+inline void *operator new[](size_t n) { void *p = malloc(n ? n : 1); if (p) fwsim::live_blocks()++; return p; }
+inline void operator delete[](void *p) noexcept { if (p) { fwsim::live_blocks()--; free(p); } }
+inline void operator delete[](void *p, size_t) noexcept { if (p) { fwsim::live_blocks()--; free(p); } }
 namespace fwsim {
 inline unsigned long &clock_ms() { static unsigned long t = 1; return t; }
 inline std::vector<long> parse(const char *name) {
@@ -137,7 +142,7 @@ void loop();
 int main(int argc, char **argv) {
   int passes = argc > 1 ? atoi(argv[1]) : 3;
   printf("== setup\n"); setup();
-  for (int k = 0; k < passes; ++k) { printf("== loop %d\n", k); loop(); }
+  for (int k = 0; k < passes; ++k) { printf("== loop %d\n", k); loop(); printf("H:%ld\n", fwsim::live_blocks()); }
   return 0;
 }
 #endif
